@@ -169,7 +169,9 @@ def check_open(ctx, I):
            f.describe() + ("; key attribute %s" % key_attr), f.if_node.lineno)
     no = model.own_method(ncls, "not_opened")
     b = strip_doc(no.body)
-    okn = len(b) == 1 and norm_src(b[0]) in ("return False if self.opened else True", "return not self.opened")
+    okn = len(b) == 1 and norm_src(b[0]) in ("return False if self.opened else True", "return not self.opened",
+                                              "if self.opened: return False else: return True",
+                                              "if not self.opened: return True else: return False")
     op = model.own_method(ncls, "open")
     okn = okn and [norm_src(s) for s in strip_doc(op.body)] == ["self.opened = True"]
     ctx.ob("R12-OPEN", okn, model.cls(ncls).file, "%s.not_opened/open" % ncls, "opened flag", "open() sets it, not_opened() reads it", no.lineno, nontrivial=False)
